@@ -5,7 +5,7 @@ import mgen
 
 LEVEL = "proof"
 MODULE = "Phil.Props.C06"
-LEVEL_TEXT = 'Lean theorems about the merge model with the .tmp marks modelled as the returned set of consumed source ids: tracking is transparent (one function returns both), used ids are source ids (any master), and the exact characterisation: the reported list is precisely the enabled source definitions whose dotted path names no master parameter, with path and line — on flat masters (flat_unused_exact, reported_iff), nested masters (tree_unused_exact, reported_iff_tree), with .multiple definitions (tree_multi_unused_exact) and with .multiple scopes (ms_unused_exact, reported_iff_ms, fetchRoot_ms_unused_exact). Tied to /repo by a correspondence run comparing the unused list; the oracle evaluates the statement on the implementation (set equality with path and line, tracking transparent, master itself as a source, change_default_phil_values).'
+LEVEL_TEXT = 'Lean theorems about the merge model with the .tmp marks modelled as the returned set of consumed source ids: tracking is transparent (one function returns both), used ids are source ids (any master), and the exact characterisation: the reported list is precisely the enabled source definitions whose dotted path names no master parameter, with path and line — on flat masters (flat_unused_exact, reported_iff), nested masters (tree_unused_exact, reported_iff_tree), with .multiple definitions (tree_multi_unused_exact) and with .multiple scopes (ms_unused_exact, reported_iff_ms, fetchRoot_ms_unused_exact). Tied to /repo by a correspondence run comparing the unused list; with variables the consumed-by-reference rule is proved (used_exact_of_texts, unused_exact_of_text). The oracle evaluates the statement on the implementation (set equality with path and line, tracking transparent, master itself as a source, sources that are API-built fetch / format results incl. template entries against later editions of the master, change_default_phil_values).'
 LEVEL_NOTE = 'Variable-free sources in the exactness theorems (a definition used only as a $variable is marked consumed by the code; the suite pins that). D46 (master passed as its own source reported its own definitions) fixed in /repo.'
 TECHNIQUE = 'Lean 4 exact characterisation of the unused list on the fetch model + differential correspondence + set-comparison oracle'
 RULE = ("masters x source lists containing known, misspelt, wrongly nested, repeated and disabled definitions; non-trivial = "
